@@ -183,13 +183,52 @@ class _Resp:
         return False
 
 
+class _ErrResp(_Resp):
+    ok = False
+
+    def __init__(self, status: int, payload):
+        self.status = status
+        self.reason = "Too Many Requests" if status == 429 else "Server Error"
+        self._payload = payload
+        self.headers = {"Content-Type": "application/json"} if payload is not None else {"Content-Type": "text/html"}
+
+    async def json(self):
+        return self._payload
+
+
+class _Raising:
+    def __init__(self, ex):
+        self.ex = ex
+
+    async def __aenter__(self):
+        raise self.ex
+
+    async def __aexit__(self, *a):
+        return False
+
+
 class _Transport:
-    def __init__(self, loop):
+    """Every request that reaches the transport is stamped; its outcome (reply, HTTP error, error payload, timeout,
+    disconnect) is scripted per request - a request that fails was still sent and still counts against the rate."""
+
+    def __init__(self, loop, outcomes=None):
         self.loop = loop
         self.seen: List[float] = []
+        self.outcomes = outcomes or []
 
     def _req(self, url, **kw):
+        import aiohttp
+        k = len(self.seen)
         self.seen.append(self.loop.time())
+        o = self.outcomes[k % len(self.outcomes)] if self.outcomes else "ok"
+        if o == "http429":
+            return _ErrResp(429, {"code": -1003, "msg": "Too many requests", "status": "error", "reason": "Too many requests"})
+        if o == "http500":
+            return _ErrResp(500, None)
+        if o == "timeout":
+            return _Raising(asyncio.TimeoutError())
+        if o == "disconnect":
+            return _Raising(aiohttp.ServerDisconnectedError())
         return _Resp()
 
     get = post = put = delete = _req
@@ -205,7 +244,11 @@ def gen_client_case(r) -> Dict[str, Any]:
     for _ in range(n):
         t += r.choice([0.0, 0.0, 0.0, 0.01, per / tpp, per * 2.5])
         arrivals.append(round(t, 6))
-    return {"client": r.choice(["binance", "bitstamp"]), "tpp": tpp, "period": per, "init": init, "arrivals": arrivals}
+    outcomes = ["ok"]
+    if r.random() < 0.5:
+        outcomes = [r.choice(["ok", "http429", "http500", "timeout", "disconnect"]) for _ in range(r.randint(1, 6))]
+    return {"client": r.choice(["binance", "bitstamp"]), "tpp": tpp, "period": per, "init": init, "arrivals": arrivals,
+            "outcomes": outcomes}
 
 
 def run_client_case(case: Dict[str, Any], res: ShardResult) -> None:
@@ -213,9 +256,10 @@ def run_client_case(case: Dict[str, Any], res: ShardResult) -> None:
     import basana.core.token_bucket as tb
 
     with vclock.virtual_time() as loop:
-        transport = _Transport(loop)
+        transport = _Transport(loop, case.get("outcomes"))
         lim = tb.TokenBucketLimiter(case["tpp"], case["period"], case["init"])
         t0 = loop.time()
+        failures = [0]
         if case["client"] == "binance":
             from basana.external.binance.client import base as bbase
             cli = bbase.BaseClient("k", "s", session=transport, tb=lim,
@@ -233,7 +277,10 @@ def run_client_case(case: Dict[str, Any], res: ShardResult) -> None:
 
         async def one(at):
             await asyncio.sleep(at)
-            await call()
+            try:
+                await call()
+            except Exception:
+                failures[0] += 1      # the caller sees the failure; the request was sent all the same
 
         async def main():
             await asyncio.gather(*[one(a) for a in case["arrivals"]])
@@ -242,6 +289,7 @@ def run_client_case(case: Dict[str, Any], res: ShardResult) -> None:
         seen = sorted(s - t0 for s in transport.seen)
     res.evaluations += 1
     res.count("client_requests", len(seen))
+    res.count("client_requests_failed", failures[0])
     # Reference: requests are consumed in arrival order (gather creates the tasks in order, equal arrival
     # times keep FIFO order); send time = arrival + reference wait.
     rate = case["tpp"] / case["period"]
@@ -298,6 +346,8 @@ def finalize(prop: str, tier: str, merged: ShardResult) -> Dict[str, Any]:
     out: Dict[str, Any] = {"inconclusive": [], "coverage": {}}
     if merged.counters.get("consume_calls", 0) < 1000:
         out["inconclusive"].append("fewer than 1000 consume() calls observed")
+    if merged.counters.get("client_requests_failed", 0) < 20:
+        out["inconclusive"].append("fewer than 20 failing client requests observed")
     if merged.counters.get("client_requests", 0) < 50:
         out["inconclusive"].append("client-level part observed fewer than 50 requests")
     exc = merged.extra.get("max_window_excess")
